@@ -1395,6 +1395,15 @@ def run(tier):
                      r['argument'], nontrivial=True, loc=r['loc'])
     for f_ in sub.findings:
         chk.violation('C15.R6', f_.where, f_.construct, f_.msg, f_.loc)
+    # freshness tests (is_var / derive_symbol) consult the symbol tables:
+    # they must describe the input the proposal is made for
+    from . import c02
+    sub2 = Check('C02', 'other', tier, [], [])
+    chk.guard(c02.rule_r6, sub2, prog)
+    chk.adopt('C15.R7', 'the symbol tables consulted by the freshness tests '
+              'are reset and rebuilt from the current input before every '
+              'sweep (shared with C02.R6 / C16.R6): a symbol introduced by '
+              'an accepted proposal is seen by the next one', sub2)
     extra = None
     if tier == 'thorough':
         from .. import selftest
